@@ -13,7 +13,8 @@ R5.5  the bitmap's range loop has inclusive-last-page form (start/page ..= (star
 import re
 
 from ..mir import deep_strip, tstr, strip_generics, canon, subterms, is_call
-from .. import effects, tracking, fixtures
+from .. import effects, tracking, fixtures, loops
+from ..bounds import norm
 
 CONFIGS = ("FULL", "XEN")
 TRUSTED = [
@@ -133,6 +134,16 @@ def rule_marking(rep, prog, eff, strict=False):
                         okn = any(is_call(x, 'ptr_guard_mut') and effects.base_of(x[2][0]) == X for x in subterms(deep_strip(n[3])))
                     rep("R5.1.extent", minst, okn, mwhere, f"element loop writes through `{tstr(ptr)}`; mark length `{tstr(m['n'])}` must be (loop pointer - start of the same guard)")
                 else:
+                    il = _indexed_element_loop(b, eff, s, X)
+                    if il is not None:
+                        # element loop spelt with enumerate(): item i is stored at start.add(i); the loop runs `count` times and is only
+                        # left when the chain is exhausted, so count * size_of::<T>() bytes were written from the first byte on
+                        nn = norm(n)
+                        okn = (nn[0] == 'bin' and nn[1] == 'Mul' and any(is_size_of(x) for x in (nn[2], nn[3]))
+                               and any(loops.final_count_var(b, il, x) for x in (nn[2], nn[3]))
+                               and m["call"].bb not in il["blocks"])
+                        rep("R5.1.extent", minst, okn, mwhere, f"element loop stores item i at start.add(i); mark length `{tstr(m['n'])}` must be (iterations of that loop) * size_of::<T>(), after the loop")
+                        continue
                     ok = is_size_of(n)
                     rep("R5.1.extent", minst, ok, mwhere, f"single volatile store of a T: mark length `{tstr(n)}` must be size_of::<T>()")
                 continue
@@ -143,6 +154,25 @@ def rule_marking(rep, prog, eff, strict=False):
                 continue
             rep("R5.1.extent", minst, False, mwhere, f"unrecognised write kind {kind}: cannot relate mark length `{tstr(n)}` to the write")
     return sites, raw, host, used_marks
+
+
+def _indexed_element_loop(b, eff, s, X):
+    """the write s goes through `start.add(i)`: start is the pointer of accessor X's own guard, i the enumerate index of the (only)
+    iterator loop of b, and the store happens on every iteration -> that loop"""
+    ptr = deep_strip(s["ptr"])
+    if not (ptr[0] == 'call' and re.search(r"(const_ptr|mut_ptr)::add$", canon(ptr[1])) and len(ptr[2]) == 2):
+        return None
+    ils = loops.iter_loops(b, eff)
+    if len(ils) != 1:
+        return None
+    il = ils[0]
+    if not loops.enum_index_of(b, il, ptr[2][1]) or s["pos"][0] not in il["blocks"] or not il["exits_only_on_none"]:
+        return None
+    if not all(b.node_dominates(s["pos"][0], u) for u in il["latches"]):
+        return None
+    if not any(is_call(x, 'ptr_guard_mut') and effects.base_of(x[2][0]) == X for x in subterms(deep_strip(ptr[2][0]))):
+        return None
+    return il
 
 
 def _count_param(raw, s):
